@@ -74,7 +74,10 @@ func main() {
 	inc := xlib.Parse("src/build/incrementality.go")
 	utl := xlib.Parse("src/core/utils.go")
 	ts := xlib.Parse("src/test/test_step.go")
-	out := xlib.NewOut("C11", inc.Path, utl.Path, ts.Path)
+	hf := xlib.Parse("src/fs/hash.go")
+	fgf := xlib.Parse("src/build/filegroup.go")
+	out := xlib.NewOut("C11", inc.Path, utl.Path, ts.Path, hf.Path, fgf.Path)
+	pathHasherFacts(hf, fgf, inc, out)
 
 	// ---------------------------------------------------------------- RuntimeHash
 	rh := inc.Func("RuntimeHash")
@@ -544,6 +547,170 @@ func isParam(fn *ast.FuncDecl, name string) bool {
 		}
 	}
 	return false
+}
+
+// pathHasherFacts: what makes the hash RuntimeHash gets for a path a function of the path's CURRENT contents even when
+// the path is a filegroup output, i.e. a hard link whose inode (and xattrs) is shared with a user-editable source file:
+//   - CopyHash -> moveOrCopyHash(copy = true): when the source hash is not memoised the destination is MARKED
+//     (memo[newPath] = nil), under the condition `copy` alone;
+//   - Hash: a marked path gets store = false and recalc = true, and the worker is called with read = !recalc;
+//   - hash(): the xattr is read only under `read`, and stored only under `store`;
+//   - the filegroup builder calls CopyHash(from, to) on both of its completion paths;
+//   - RuntimeHash hashes through PathHasher.Hash (not MustHash / a private walk).
+func pathHasherFacts(hf, fgf, inc *xlib.File, out *xlib.Out) {
+	mc := hf.Func("PathHasher.moveOrCopyHash")
+	copyParam := paramName(mc, 2)
+	newParam := paramName(mc, 1)
+	markCond, marksNil := "", false
+	ast.Inspect(mc.Body, func(n ast.Node) bool {
+		is, ok := n.(*ast.IfStmt)
+		if !ok {
+			return true
+		}
+		for cur := is; cur != nil; {
+			for _, st := range cur.Body.List {
+				if as, ok := st.(*ast.AssignStmt); ok && len(as.Lhs) == 1 && len(as.Rhs) == 1 && hf.Src(as.Rhs[0]) == "nil" {
+					if ix, ok := as.Lhs[0].(*ast.IndexExpr); ok && hf.Src(ix.Index) == newParam && strings.HasSuffix(hf.Src(ix.X), "memo") {
+						marksNil = true
+						markCond = strings.ReplaceAll(hf.Src(cur.Cond), copyParam, "<copy>")
+					}
+				}
+			}
+			next, _ := cur.Else.(*ast.IfStmt)
+			cur = next
+		}
+		return false
+	})
+	out.Def("copyHashMarksDestination", "Bool", xlib.LeanBool(marksNil))
+	out.Def("copyHashMarkCondition", "String", xlib.LeanStr(markCond))
+	ch := hf.Func("PathHasher.CopyHash")
+	copyIsTrue := false
+	ast.Inspect(ch.Body, func(n ast.Node) bool {
+		if c, ok := n.(*ast.CallExpr); ok && callName(hf, c) == "moveOrCopyHash" && len(c.Args) == 3 && hf.Src(c.Args[2]) == "true" {
+			copyIsTrue = true
+		}
+		return true
+	})
+	out.Def("copyHashPassesCopyTrue", "Bool", xlib.LeanBool(copyIsTrue))
+
+	// Hash: the branch for a marked path (`else if present`) and the call of the worker
+	hs := hf.Func("PathHasher.Hash")
+	recalcParam, storeParam := paramName(hs, 1), paramName(hs, 2)
+	var marked []string
+	workerArgs := []string{}
+	ast.Inspect(hs.Body, func(n ast.Node) bool {
+		switch x := n.(type) {
+		case *ast.IfStmt:
+			if e, ok := x.Else.(*ast.IfStmt); ok && strings.Contains(hf.Src(x.Cond), "!= nil") {
+				for _, st := range e.Body.List {
+					if as, ok := st.(*ast.AssignStmt); ok && len(as.Lhs) == 1 {
+						l := hf.Src(as.Lhs[0])
+						switch l {
+						case recalcParam:
+							l = "recalc"
+						case storeParam:
+							l = "store"
+						}
+						marked = append(marked, l+"="+hf.Src(as.Rhs[0]))
+					}
+				}
+			}
+		case *ast.CallExpr:
+			if callName(hf, x) == "hash" && len(x.Args) == 4 {
+				for _, a := range x.Args {
+					v := hf.Src(a)
+					v = strings.ReplaceAll(v, recalcParam, "recalc")
+					v = strings.ReplaceAll(v, storeParam, "store")
+					workerArgs = append(workerArgs, v)
+				}
+			}
+		}
+		return true
+	})
+	out.Def("hashMarkedPathAssigns", "List String", xlib.LeanStrList(marked))
+	out.Def("hashWorkerArgs", "List String", xlib.LeanStrList(workerArgs))
+
+	// hash(): guards of the xattr read and of the xattr store
+	hw := hf.Func("PathHasher.hash")
+	wStore, wRead := paramName(hw, 1), paramName(hw, 2)
+	readGuarded, storeGuarded := false, false
+	ast.Inspect(hw.Body, func(n ast.Node) bool {
+		is, ok := n.(*ast.IfStmt)
+		if !ok {
+			return true
+		}
+		for cur := is; cur != nil; {
+			body := hf.Src(cur.Body)
+			hasName := func(name string) bool {
+				for _, c := range conj(cur.Cond) {
+					if hf.Src(c) == name {
+						return true
+					}
+				}
+				return false
+			}
+			if strings.Contains(body, "xattr.LGet") && !strings.Contains(body, "storeHash") {
+				readGuarded = hasName(wRead)
+			}
+			if strings.Contains(body, "storeHash(") {
+				storeGuarded = hasName(wStore)
+			}
+			next, _ := cur.Else.(*ast.IfStmt)
+			cur = next
+		}
+		return true
+	})
+	xattrReads, xattrStores := 0, 0
+	ast.Inspect(hw.Body, func(n ast.Node) bool {
+		if c, ok := n.(*ast.CallExpr); ok {
+			if hf.Src(c.Fun) == "xattr.LGet" {
+				xattrReads++
+			}
+			if callName(hf, c) == "storeHash" {
+				xattrStores++
+			}
+		}
+		return true
+	})
+	out.Def("hashWorkerReadGuardedByRead", "Bool", xlib.LeanBool(readGuarded && xattrReads == 1))
+	out.Def("hashWorkerStoreGuardedByStore", "Bool", xlib.LeanBool(storeGuarded && xattrStores == 1))
+
+	// filegroup builder: every `builder.built[to] = …` is followed by CopyHash(from, to)
+	fb := fgf.Func("filegroupBuilder.Build")
+	from, to := paramName(fb, 2), paramName(fb, 3)
+	var seq []string
+	ast.Inspect(fb.Body, func(n ast.Node) bool {
+		switch x := n.(type) {
+		case *ast.AssignStmt:
+			if len(x.Lhs) == 1 {
+				if ix, ok := x.Lhs[0].(*ast.IndexExpr); ok && strings.HasSuffix(fgf.Src(ix.X), "built") && fgf.Src(ix.Index) == to {
+					seq = append(seq, "built")
+				}
+			}
+		case *ast.CallExpr:
+			if callName(fgf, x) == "CopyHash" && len(x.Args) == 2 && fgf.Src(x.Args[0]) == from && fgf.Src(x.Args[1]) == to {
+				seq = append(seq, "CopyHash")
+			}
+		}
+		return true
+	})
+	out.Def("filegroupBuildSequence", "List String", xlib.LeanStrList(seq))
+
+	// RuntimeHash hashes each path through PathHasher.Hash(src, recalc=false, store=…, …)
+	rh := inc.Func("RuntimeHash")
+	via := ""
+	ast.Inspect(rh.Body, func(n ast.Node) bool {
+		if rs, ok := n.(*ast.RangeStmt); ok {
+			ast.Inspect(rs.Body, func(m ast.Node) bool {
+				if c, ok := m.(*ast.CallExpr); ok && strings.HasSuffix(inc.Src(c.Fun), "PathHasher.Hash") && len(c.Args) == 4 {
+					via = "PathHasher.Hash(recalc=" + inc.Src(c.Args[1]) + ")"
+				}
+				return true
+			})
+		}
+		return true
+	})
+	out.Def("runtimeHashPathVia", "String", xlib.LeanStr(via))
 }
 
 func callNameIs(f *xlib.File, e ast.Expr, want string) bool { return f.Src(e) == want }
